@@ -466,7 +466,10 @@ def accept_cell(P, A):
         for i, kind in enumerate(kinds):
             mid = str(mid_of[i])
             if kind == 'roCreate':
-                b = ro_builder(['a', 'b'], mid, ro_id=rids[i])
+                # P['completed_rc']: which of the roCreate documents (by occurrence) are saved, completed merge
+                # output - still a roCreate as far as the collection is concerned
+                occ = kinds[:i].count('roCreate')
+                b = ro_builder(['a', 'b'], mid, ro_id=rids[i], completed=occ in (P.get('completed_rc') or ()))
             else:
                 b = msg_builder(kind, 'a', mid, ro_id=rids[i])
             handles.append(W.doc(b, kind=src))
